@@ -272,6 +272,7 @@ def observe_frames(frames):
                 "vis": None if vis is None else (vis.name if type(vis).__name__ == "Visibility" else f"str:{vis}"),
                 "pos": [float(v) for v in st.position], "ori": [float(v) for v in st.orientation.q],
                 "frame_id": _enum_name(o.frame_id), "unix_time": o.unix_time, "score": float(o.semantic_score), "hist": hist,
+                "velocity_none": st.velocity is None,      # outside the C16 statement: recorded in the distribution only
             })
         e2m = fr.transforms.get((FrameID.BASE_LINK, FrameID.MAP))
         tf = None
@@ -287,19 +288,30 @@ def observe_frames(frames):
     return out
 
 
-def load_config(root, task, frame, merge):
+def _frame_id_arg(frame, form):
+    """the `frame_id` argument in the representations the signature documents: Union[FrameID, Sequence[FrameID]]"""
+    from perception_eval.common.schema import FrameID
+
+    fid = FrameID.from_value(frame)
+    return {"bare": fid, "list": [fid], "tuple": (fid,)}[form]
+
+
+def load_config(roots, task, frame, merge, form="bare", conv=None):
     from perception_eval.common.dataset import load_all_datasets
     from perception_eval.common.evaluation_task import EvaluationTask
     from perception_eval.common.label import LabelConverter
-    from perception_eval.common.schema import FrameID
 
     et = EvaluationTask.from_value(task)
-    conv = LabelConverter(et, merge, "autoware")
+    if conv is None:
+        conv = LabelConverter(et, merge, "autoware")
     try:
-        frames = load_all_datasets([root], et, conv, FrameID.from_value(frame), False)
+        frames = load_all_datasets(list(roots), et, conv, _frame_id_arg(frame, form), False)
     except Exception as e:
         if type(e).__name__ in ("KeyError", "ValueError", "DatasetLoadingError"):
             return {"error": type(e).__name__}
+        if isinstance(e, (TypeError, AssertionError)):
+            # e.g. a documented representation of the frame_id argument refused: reported by the oracle (and Unmodelled for the model)
+            return {"error": f"{type(e).__name__}: {str(e)[:120]}"}
         raise
     return {"frames": observe_frames(frames)}
 
@@ -307,12 +319,49 @@ def load_config(root, task, frame, merge):
 _COUNTER = [0]
 
 
-def run_dataset(ds, configs):
+def run_dataset(ds, configs, case=None):
+    """Loads the dataset under every configuration.  `case` (optional) adds: the representation of the frame_id
+    argument per configuration (`fid_forms`), ONE LabelConverter per (task, merge) serving all loads of the case, built the
+    way the configuration classes build it (`count_labels`), and for one configuration a load of SEVERAL dataset paths
+    (`multi`: the paths name the case's dataset "A" and its second dataset "B").  The observation of a configuration keeps
+    the frames of dataset A under "frames" (what the model is compared with); a load of several paths adds "paths" and
+    "segments" (the frames cut at the sample counts of the datasets, None when the total differs) for the oracle."""
+    from perception_eval.common.evaluation_task import EvaluationTask
+    from perception_eval.common.label import LabelConverter
+
+    case = case or {}
+    forms = case.get("fid_forms") or ["bare"] * len(configs)
+    multi = case.get("multi")
     _COUNTER[0] += 1
     root = os.path.join(tmp_root(), f"d{_COUNTER[0]}")
+    roots = {"A": os.path.join(root, "A"), "B": os.path.join(root, "B")}
     try:
-        write_dataset(ds, root)
-        return [load_config(root, t, f, m) for t, f, m in configs]
+        write_dataset(ds, roots["A"])
+        if case.get("extra") is not None:
+            write_dataset(case["extra"], roots["B"])
+        convs = {}
+        out = []
+        for i, (t, f, m) in enumerate(configs):
+            conv = None
+            if case.get("share_converter"):
+                if (t, m) not in convs:
+                    convs[(t, m)] = LabelConverter(EvaluationTask.from_value(t), m, "autoware", bool(case.get("count_labels")))
+                conv = convs[(t, m)]
+            paths = multi["paths"] if multi and multi["config"] == i else ["A"]
+            o = load_config([roots[p] for p in paths], t, f, m, forms[i], conv)
+            if paths != ["A"] and "frames" in o:
+                counts = [len((ds if p == "A" else case["extra"])["samples"]) for p in paths]
+                allf = o["frames"]
+                o["paths"], o["n_loaded"], o["segments"] = list(paths), len(allf), None
+                if len(allf) == sum(counts):
+                    segs, k = [], 0
+                    for c in counts:
+                        segs.append(allf[k:k + c])
+                        k += c
+                    o["segments"] = segs
+                    o["frames"] = segs[paths.index("A")]
+            out.append(o)
+        return out
     finally:
         shutil.rmtree(root, ignore_errors=True)
         try:
@@ -719,7 +768,20 @@ class LoadCorr(Corr):
         out = []
 
         def add(stream, ds, configs=None, fault=None):
-            out.append({"stream": stream, "ds": ds, "configs": configs or pick_configs(rng), "fault": fault})
+            configs = configs or pick_configs(rng)
+            case = {"stream": stream, "ds": ds, "configs": configs, "fault": fault}
+            # representation of the frame_id argument: a FrameID, a list or a tuple of one FrameID
+            case["fid_forms"] = [rng.choice(["bare", "list", "tuple"]) for _ in configs]
+            # one converter per (task, merge) for all loads of the case, as a manager holds one (with label counting: the
+            # configuration classes' default), or a fresh one per load
+            case["share_converter"] = rng.random() < 0.6
+            case["count_labels"] = rng.random() < 0.5
+            if fault is None and (len(out) < 2 or rng.random() < 0.5):
+                # one configuration loads several dataset paths (a second, small dataset B; A twice; B first)
+                case["extra"] = gen_dataset(rng, K=rng.randint(1, 3), M=rng.randint(0, 3))
+                case["multi"] = {"config": rng.randrange(len(configs)),
+                                 "paths": rng.choice([["A", "B"], ["B", "A"], ["A", "A"], ["A", "B", "A"], ["A", "B"]])}
+            out.append(case)
 
         n_typ, n_bnd, n_mal = (110, 50, 26) if tier == "quick" else (1500, 700, 260)
         # regression / witnesses first: the smallest dataset, and one with everything, under all 12 configurations
@@ -752,7 +814,7 @@ class LoadCorr(Corr):
         return out
 
     def run_impl(self, case):
-        return run_dataset(case["ds"], case["configs"])
+        return run_dataset(case["ds"], case["configs"], case)
 
     def coq_term(self, case, obs):
         items = [f"({COQ_TASK[t]}, {COQ_FRAME[f]}, {blit(m)}, {coq_obs(o)})" for (t, f, m), o in zip(case["configs"], obs)]
@@ -766,6 +828,17 @@ class LoadCorr(Corr):
         if case["fault"]:
             return None     # the property speaks about well-formed datasets only
         for (t, f, m), o in zip(case["configs"], obs):
+            if "paths" in o:
+                # several dataset paths: the frames of every dataset, each as if loaded alone, in the order of the paths
+                dss = [case["ds"] if p == "A" else case["extra"] for p in o["paths"]]
+                if o["segments"] is None:
+                    return (f"[{t}, {f}, merge={m}] loading the paths {o['paths']} yields {o['n_loaded']} frames for datasets of "
+                            f"{[len(d['samples']) for d in dss]} samples")
+                for k, (d, seg) in enumerate(zip(dss, o["segments"])):
+                    msg = oracle_config(d, t, f, m, {"frames": seg})
+                    if msg:
+                        return f"[{t}, {f}, merge={m}] paths {o['paths']}, dataset {k} ({o['paths'][k]}): {msg}"
+                continue
             msg = oracle_config(case["ds"], t, f, m, o)
             if msg:
                 return f"[{t}, {f}, merge={m}] {msg}"
@@ -789,9 +862,20 @@ class LoadCorr(Corr):
     def distribution(self, cases, obs):
         d = {"streams": {}, "samples_per_dataset": {}, "annotations_total": 0, "objects_observed": 0, "configs": {}, "labels": {},
              "visibility": {}, "history_lengths": {}, "errors": {}, "identity_calibration": 0, "general_calibration": 0,
-             "table_order_differs_from_time_order": 0, "sensors_per_dataset": {}, "registered_category": 0, "unregistered_category": 0}
+             "table_order_differs_from_time_order": 0, "sensors_per_dataset": {}, "registered_category": 0, "unregistered_category": 0,
+             "frame_id_argument": {}, "loads_of_several_paths": {}, "frames_checked_in_loads_of_several_paths": 0,
+             "cases_with_one_converter_for_all_loads": 0, "of_them_counting_labels": 0,
+             "loaded_velocity": {"None": 0, "estimated": 0}}
         for c, ob in zip(cases, obs):
             ds = c["ds"]
+            for form in c.get("fid_forms") or []:
+                d["frame_id_argument"][form] = d["frame_id_argument"].get(form, 0) + 1
+            if c.get("share_converter"):
+                d["cases_with_one_converter_for_all_loads"] += 1
+                d["of_them_counting_labels"] += 1 if c.get("count_labels") else 0
+            if c.get("multi"):
+                k = "+".join(c["multi"]["paths"])
+                d["loads_of_several_paths"][k] = d["loads_of_several_paths"].get(k, 0) + 1
             d["streams"][c["stream"]] = d["streams"].get(c["stream"], 0) + 1
             k = str(len(ds["samples"]))
             d["samples_per_dataset"][k] = d["samples_per_dataset"].get(k, 0) + 1
@@ -817,9 +901,12 @@ class LoadCorr(Corr):
                 if "error" in o:
                     d["errors"][o["error"]] = d["errors"].get(o["error"], 0) + 1
                     continue
+                if o.get("segments"):
+                    d["frames_checked_in_loads_of_several_paths"] += sum(len(sg) for sg in o["segments"])
                 for fr in o["frames"]:
                     for x in fr["objects"]:
                         d["objects_observed"] += 1
+                        d["loaded_velocity"]["None" if x.get("velocity_none") else "estimated"] += 1
                         d["labels"][x["label"]] = d["labels"].get(x["label"], 0) + 1
                         d["visibility"][str(x["vis"])] = d["visibility"].get(str(x["vis"]), 0) + 1
                         if x["hist"] is not None:
@@ -847,7 +934,9 @@ class C16(Prop):
                   "(BASE_LINK, MAP) is that ego pose for both frame ids and maps every base_link pose onto the map pose (position and quaternion "
                   "component-wise); tracking histories are exactly the prev-chain of the same instance, global poses as annotated, < 3.15 s old, at most "
                   "6, maximal; no history for other tasks. Correspondence: dataset directories written by the harness and loaded by the real "
-                  "load_all_datasets, compared inside Coq with the model on the same tables.")
+                  "load_all_datasets, compared inside Coq with the model on the same tables. Run-time oracle only (not the theorems): a load of "
+                  "several dataset paths yields the frames of each dataset in the order of the paths; list / tuple / bare frame_id argument; one "
+                  "LabelConverter shared by successive loads.")
     level_note = ("WEAKEST TIE OF ALL PROPERTIES: nuscenes-devkit (NuScenes.__init__/reverse index/get/get_sample_data/get_boxes/Box.translate/rotate, "
                   "PredictHelper._iterate), json parsing and file I/O are MODELLED from reading their source, not translated; the model is tied to the "
                   "code only by this run's correspondence (generated directories, 1-8 samples) and by nothing for inputs outside the generator "
@@ -858,7 +947,10 @@ class C16(Prop):
             "chains, 1-5 categories registered/unregistered/case variants, 0-4 attributes, 1-6 visibility levels incl. aliases or an empty table, 1-3 "
             "sensors with LIDAR_TOP and/or LIDAR_CONCAT, key and non-key sample_data, rational unit quaternions, k/8 translations, identity or general "
             "lidar calibration) loaded under 4 (first two cases: all 12) configurations covering both frame ids x tracking/non-tracking with random "
-            "merge flag; boundary stream: sample spacing exactly 3.15 s +- 1 us, > 6 preceding samples, empty visibility table, no objects, single "
+            "merge flag; the frame_id argument is passed as a FrameID, a list or a tuple of one FrameID; in 60% of the cases ONE LabelConverter per "
+            "(task, merge) serves all loads of the case (half of them counting labels, the configuration classes' default); in half of the "
+            "well-formed cases one configuration loads SEVERAL paths (A+B, B+A, A+A, A+B+A with a second dataset B of 1-3 samples): the oracle "
+            "demands the frames of every dataset, each as if loaded alone, in the order of the paths (the model sees A's share); boundary stream: sample spacing exactly 3.15 s +- 1 us, > 6 preceding samples, empty visibility table, no objects, single "
             "sample; malformed stream (model tie only): 13 single faults -> KeyError/ValueError/DatasetLoadingError. Compared: number/order/names/"
             "timestamps of frames, per-frame object uuids in order, labels, kept names, attributes, sizes (exact), point counts, visibility, positions "
             "and orientations (1e-9, orientation up to sign), frame ids, the stored (BASE_LINK, MAP) matrix and every stored transform, tracking "
